@@ -565,7 +565,9 @@ let run (cmd : string) (args : string list) : string =
         | None -> "none"
         | Some n ->
           let keep = L.filter (fun m -> spec_loss (freeze (Rules.apply p m)) (maxn - 1)) (Rules.legal_moves p) in
-          Printf.sprintf "%d %s" n (String.concat ";" (L.map (fun m -> spec_move_str m ^ "=" ^ spec_fen (Rules.apply p m)) keep))))
+          let dist m = let p' = freeze (Rules.apply p m) in
+            let rec go k = if k > maxn - 1 then 0 else if spec_loss p' k then k + 1 else go (k + 1) in go 0 in
+          Printf.sprintf "%d %s" n (String.concat ";" (L.map (fun m -> spec_move_str m ^ "=" ^ spec_fen (Rules.apply p m) ^ "@" ^ string_of_int (dist m)) keep))))
   | "speckeeps", [fen; raw; maxn] ->
     (* does the move keep a forced mate against the opponent (opponent is lost within maxn plies)? *)
     (match spec_pos fen with
